@@ -102,10 +102,16 @@ def pair_large_radius(ctx, rng):
         d = pc.rel_diff(Ks[r]['k0'], K0['k0'] + X / r + Y / r ** 2)
         if d > 1e-8:
             return case, 'cylindrical panel of radius %g is not plate + X/r + Y/r^2 (rel %.3e)' % (r, d)
-    d4, d7 = pc.rel_diff(Ks[1e4]['k0'], K0['k0']), pc.rel_diff(Ks[1e7]['k0'], K0['k0'])
-    if d7 > 2e-3 * d4 + 1e-12:
-        return case, ('the distance of the cylindrical panel from the flat plate does not decay like 1/r: rel %.3e at r = 1e4, '
-                      '%.3e at r = 1e7' % (d4, d7))
+    # the distance itself is bounded by the two terms of the expansion (a RATIO d(1e7)/d(1e4) is not: X/r and Y/r^2 can have
+    # opposite signs and partly cancel at r = 1e4 - thorough tier, seed 3, thin [45/30] strip: ratio 2.8e-3, a false alarm of an earlier version)
+    import numpy as _np
+    sc = max(_np.abs(K0['k0']).max(), 1e-300)
+    for r in (1e4, 1e7):
+        d = pc.rel_diff(Ks[r]['k0'], K0['k0'])
+        bound = (_np.abs(X).max() / r + _np.abs(Y).max() / r ** 2) / sc
+        if d > bound * (1 + 1e-6) + 1e-12:
+            return case, ('the distance of the cylindrical panel of radius %g from the flat plate (rel %.3e) exceeds |X|/r + |Y|/r^2 = %.3e'
+                          % (r, d, bound))
     return None, None
 
 
